@@ -34,6 +34,7 @@ import (
 	"verifharness/jar"
 	"verifharness/pe"
 	"verifharness/ps"
+	"verifharness/xsig"
 	"verifharness/ziprw"
 )
 
@@ -54,6 +55,7 @@ var handlers = map[string]func([]string) string{
 	"PS":    ps.Handle,
 	"C09":   c09.Handle,
 	"C19":   c19.Handle,
+	"XSIG":  xsig.Handle,
 }
 
 // gens: property -> generators whose ops make up its correspondence run
@@ -155,6 +157,7 @@ func init() {
 		}
 		if p == "C01" || p == "C02" || p == "C03" || p == "C08" {
 			gens[p] = append(gens[p], forProp(p, e2e.Gen))
+			gens[p] = append(gens[p], forProp(p, xsig.Gen))
 		}
 	}
 }
